@@ -640,10 +640,24 @@ package ion
 // symboltable.go: shared symbol tables. A shared table is immutable after construction:
 // every method has `modifies nothing` (C18) and the results below (C09).
 
+// Observers of the symbol table interfaces are pure.
+//@ interface SymbolTable.MaxID
+//@ pure
+//@ interface SymbolTable.FindByID
+//@ pure
+//@ interface SymbolTable.FindByName
+//@ pure
+//@ interface SharedSymbolTable.Name
+//@ pure
+//@ interface SharedSymbolTable.Version
+//@ pure
+
 //@ func buildIndex
-//@ invariant loop0 [idx_ int] idx_ >= -1 && idx_ < len(symbols)
+//@ requires offset < 1<<62
+//@ invariant loop0 [idx_ int, index map[string]uint64] idx_ >= -1 && idx_ < len(symbols) && vcMapAllU64(index, func(id uint64) bool { return offset <= id && id <= offset+uint64(idx_) })
 //@ modifies nothing
 //@ ensures[C09] result != nil && vcFresh(result)
+//@ ensures[C09] vcMapAllU64(result, func(id uint64) bool { return offset <= id && id < offset+uint64(len(symbols)) })
 //@ safe[C06]
 
 //@ func NewSharedSymbolTable
@@ -651,6 +665,7 @@ package ion
 //@ ensures[C09,C10] result != nil && vcIsSST(result)
 //@ ensures[C09] vcAsSST(result).maxID == uint64(len(symbols)) && len(vcAsSST(result).symbols) == len(symbols) && vcAsSST(result).version == version
 //@ ensures[C09] vcFresh(vcAsSST(result).symbols)
+//@ ensures[C09] sstWF(vcAsSST(result))
 //@ safe[C06]
 
 //@ func (*sst).MaxID
@@ -664,9 +679,16 @@ package ion
 //@ ensures[C09] 1 <= id && id <= uint64(len(s.symbols)) ==> result1 && result0 == s.symbols[id-1]
 //@ safe[C06,C09]
 
+//@ func (*sst).FindByName
+//@ requires sstWF(s)
+//@ modifies nothing
+//@ ensures[C09] result1 ==> 1 <= result0 && result0 <= uint64(len(s.symbols))
+//@ ensures[C09] result1 == vcHasKey(s.index, sym)
+//@ safe[C06]
+
 //@ func (*sst).Adjust
 //@ split returns
-//@ requires len(s.symbols) <= int(s.maxID)
+//@ requires sstWF(s)
 //@ modifies nothing
 //@ ensures[C09,C10] result != nil && vcIsSST(result) && vcAsSST(result).maxID == maxID
 //@ ensures[C09,C10] vcAsSST(result).version == s.version && vcAsSST(result).name == s.name
@@ -674,7 +696,7 @@ package ion
 //@ ensures[C09,C10] maxID >= uint64(len(s.symbols)) ==> len(vcAsSST(result).symbols) == len(s.symbols)
 //@ ensures[C09,C10] maxID < uint64(len(s.symbols)) ==> uint64(len(vcAsSST(result).symbols)) == maxID
 //@ ensures[C09,C10] forall i int :: 0 <= i && i < len(vcAsSST(result).symbols) ==> vcAsSST(result).symbols[i] == s.symbols[i]
-//@ ensures[C09,C10] len(vcAsSST(result).symbols) <= int(vcAsSST(result).maxID)
+//@ ensures[C09,C10,C11] sstWF(vcAsSST(result))
 //@ safe[C06]
 
 //@ func (*bogusSST).Adjust
@@ -1078,3 +1100,47 @@ package ion
 //@ ensures[C12,C19] old(w.err) != nil ==> err == old(w.err) && w.err == old(w.err)
 //@ ensures[C04,C12] err == nil && old(w.needsSeparator) && (old(w.emptyStream) || old(w.opts)&TextWriterQuietFinish != 0) ==> w.needsSeparator
 //@ ensures[C04,C12] err == nil ==> w.fieldName == nil && len(w.annotations) == 0
+
+// ---------------------------------------------------------------------------
+// symboltable.go: local symbol tables and the builder
+
+//@ func processImports
+//@ invariant loop0 [idx_ int, offsets []uint64, imps []SharedSymbolTable] idx_ >= -1 && idx_ < len(imps) && len(offsets) == len(imps) && len(imps) >= 1 && (idx_ >= 0 ==> offsets[0] == 0)
+//@ modifies nothing
+//@ ensures[C09] len(result0) >= 1 && len(result1) == len(result0) && result1[0] == 0
+//@ ensures[C09] len(imports) > 0 && imports[0] != nil && imports[0].Name() == "$ion" ==> len(result0) == len(imports)
+//@ ensures[C09] !(len(imports) > 0 && imports[0] != nil && imports[0].Name() == "$ion") ==> len(result0) == len(imports)+1 && result0[0] == V1SystemSymbolTable
+//@ ensures[C09] vcFresh(result0) && vcFresh(result1)
+//@ safe[C06]
+
+//@ func (*lst).FindByID
+//@ requires lstWF(t)
+//@ modifies nothing
+//@ ensures[C09] id == 0 ==> !result1
+//@ ensures[C09] id > t.maxImportID+uint64(len(t.symbols)) && t.maxImportID+uint64(len(t.symbols)) >= t.maxImportID ==> !result1
+//@ ensures[C09] id > t.maxImportID && id-t.maxImportID <= uint64(len(t.symbols)) ==> result1 && result0 == t.symbols[id-t.maxImportID-1]
+//@ safe[C06,C09]
+
+//@ func (*lst).findByIDInImports
+//@ requires lstWF(t) && id >= 1
+//@ invariant loop0 [i int, off uint64] 1 <= i && i <= len(t.imports) && off == t.offsets[i-1] && off < id
+//@ modifies nothing
+//@ safe[C06,C09]
+
+//@ func (*lst).FindByName
+//@ requires lstWF(t)
+//@ invariant loop0 [idx_ int] idx_ >= -1 && idx_ < len(t.imports)
+//@ modifies nothing
+//@ ensures[C09] !result1 ==> !vcHasKey(t.index, s)
+//@ safe[C06,C09]
+
+//@ func (*symbolTableBuilder).Add
+//@ split returns
+//@ requires lstWF(&b.lst) && b.index != nil
+//@ modifies b.symbols, b.index
+//@ ensures[C09] old(vcHasKey(b.index, symbol)) ==> !result1 && len(b.symbols) == old(len(b.symbols))
+//@ ensures[C09] result1 ==> result0 == b.maxImportID+uint64(old(len(b.symbols)))+1 && len(b.symbols) == old(len(b.symbols))+1 && b.symbols[len(b.symbols)-1] == symbol
+//@ ensures[C09] result1 ==> vcHasKey(b.index, symbol) && b.index[symbol] == result0
+//@ ensures[C09] !result1 ==> len(b.symbols) == old(len(b.symbols))
+//@ ensures[C09] forall i int :: 0 <= i && i < old(len(b.symbols)) ==> b.symbols[i] == old(b.symbols[i])
+//@ safe[C06]
